@@ -86,7 +86,7 @@ class Check:
             st["mismatches_not_listed"] = summ["n_mismatch"] - len(summ["mismatches"])
         return tl, summ
 
-    def traces_stage(self, name, recorder, profile, files, runs, ops, trace_spec="BookTrace", par=8, extra_args=(), timeout=600):
+    def traces_stage(self, name, recorder, profile, files, runs, ops, trace_spec="BookTrace", par=8, extra_args=(), timeout=600, consts=None):
         """record-validate: `files` trace files, each `runs` runs of <= `ops` calls."""
         core.build_harness()
         d = os.path.join(core.WORK, "traces", "%s_%s" % (self.prop, name))
@@ -102,7 +102,7 @@ class Check:
             if r.returncode != 0:
                 raise ToolError("%s: recorder failed: %s" % (name, r.stderr[-2000:]))
             summ = json.loads(r.stdout.strip().splitlines()[-1])
-            v = core.validate_trace("%s_%s_%d" % (self.prop, name, i), trace_spec, out, timeout=timeout)
+            v = core.validate_trace("%s_%s_%d" % (self.prop, name, i), trace_spec, out, timeout=timeout, consts=consts)
             return i, out, seed, summ, v
 
         tot_events, tot_states, nrej = 0, 0, 0
@@ -116,7 +116,7 @@ class Check:
                                          "case": strip_views(summ["samples"][0])})
                 for p in summ.get("panics", []):
                     self.violation(name, p["what"], {"kind": "panic", "recorder": recorder, "seed": seed, "profile": profile,
-                                                     "history": p.get("history"), "cfg": p.get("cfg")})
+                                                     "history": p.get("history"), "cfg": p.get("cfg"), "step": p.get("step")})
                 if not v["accepted"]:
                     nrej += 1
                     rj = v["reject"] or {}
